@@ -182,6 +182,8 @@ pub struct CodegenContext {
 
     segments: IndexMap<Identifier, Segment>,
     current_segment: Option<Identifier>,
+    /// The segment every pass starts in: the one that was defined first (or the default one)
+    initial_segment: Option<Identifier>,
     banks: IndexMap<Identifier, BankOptions>,
 
     functions: FunctionMap,
@@ -239,6 +241,7 @@ impl CodegenContext {
             pass_idx: 0,
             segments: IndexMap::new(),
             current_segment: None,
+            initial_segment: None,
             banks: IndexMap::new(),
             functions: HashMap::new(),
             symbols: SymbolTable::default(),
@@ -340,6 +343,11 @@ impl CodegenContext {
 
         log::trace!("\n* NEXT PASS ({}) *", self.pass_idx);
         self.segments.values_mut().for_each(|s| s.reset());
+        // A '.segment' statement without a block switches segments for the rest of the pass, not for the start of the next:
+        // the code in front of it would otherwise move into the segment that was selected last
+        if self.initial_segment.is_some() {
+            self.current_segment = self.initial_segment.clone();
+        }
         self.test_elements.clear();
         self.source_map.clear();
         // What an identifier refers to may differ between passes (e.g. a name that resolved to an outer symbol while
@@ -690,6 +698,9 @@ impl CodegenContext {
                             }
 
                             self.segments.insert(name.clone(), Segment::new(opts));
+                            if self.initial_segment.is_none() {
+                                self.initial_segment = Some(name.clone());
+                            }
                             if self.current_segment.is_none() {
                                 self.current_segment = Some(name);
                             }
@@ -1576,6 +1587,7 @@ pub fn codegen(
             ctx.segments
                 .insert("default".into(), Segment::new(seg_opts));
             ctx.current_segment = Some("default".into());
+            ctx.initial_segment = ctx.current_segment.clone();
         } else {
             // There were segments, so we have emitted something.
 
